@@ -287,6 +287,8 @@ func spec_decoded(path string, k int, v any) bool {
 //@   requires fs.extHost != nil && fs.extHost.Events != nil && len(hash) >= 6
 //@   ensures ret != nil && vcFresh(ret) && ret.RWMutex != nil && ret.store == fs && !ret.indexLoaded && len(ret.messages) == 0 && cap(ret.messages) == 0
 //@   ensures[assumedPathsDistinct] spec_listOK(ret)
+//@   ensures[hashPaths C10] ret.dirName == hash && ret.name == "" && ret.path == filepath.Join(fs.mailPath, hash[0:3], hash[0:6], hash) &&
+//@      ret.indexPath == filepath.Join(filepath.Join(fs.mailPath, hash[0:3], hash[0:6], hash), indexFileName)
 //@   serves C10 C07
 
 //@ pred spec_storeOK(fs *Store) bool = fs != nil && fs.extHost != nil && fs.extHost.Events != nil
